@@ -357,7 +357,7 @@ var accepts = []string{"", "*/*", "application/*", "application/json", "applicat
 
 func gen(t *rapid.T) Case {
 	var c Case
-	n := rapid.IntRange(1, 4).Draw(t, "nops")
+	n := rapid.SampledFrom([]int{1, 1, 1, 2, 2, 3, 4}).Draw(t, "nops")
 	perm := rapid.Permutation([]int{0, 1, 2, 3, 4, 5}).Draw(t, "opsperm")
 	c.Ops = perm[:n]
 	c.Anonymous = n == 1 && rapid.Bool().Draw(t, "anon")
@@ -365,9 +365,9 @@ func gen(t *rapid.T) Case {
 	c.Transport = rapid.SampledFrom([]string{"get", "get", "post", "post", "graphql", "urlencoded"}).Draw(t, "transport")
 	c.QueryCache = rapid.Bool().Draw(t, "querycache")
 	c.Repeat = rapid.SampledFrom([]int{0, 0, 1, 2}).Draw(t, "repeat")
-	switch rapid.IntRange(0, 3).Draw(t, "opname") {
+	switch rapid.IntRange(0, 7).Draw(t, "opname") {
 	case 0:
-	case 1, 2:
+	case 1, 2, 3, 4, 5:
 		c.HasOpName = true
 		c.OpName = fmt.Sprintf("Op%d", rapid.IntRange(0, n-1).Draw(t, "which"))
 	default:
